@@ -522,3 +522,24 @@ func firstNonEmpty(a, b string) string {
 	}
 	return b
 }
+
+// HookOrderProbe registers three recording listeners through the module's InvokeSetHooks (which
+// ranges over a map of module names) on a fresh keeper and runs one creation; it returns the
+// observed call sequence. Used by the iteration-order explorer (C14), where InvokeSetHooks' key
+// order is under the scheduler's control.
+func HookOrderProbe(w *world.World) (string, error) {
+	var calls []hookCall
+	hm := map[string]ftypes.FundraisingHooks{}
+	for i := 0; i < 3; i++ {
+		hm[fmt.Sprintf("mod%c", 'a'+i)] = &recListener{idx: i, w: w, calls: &calls}
+	}
+	k := keeperWith(w, w.App.BankKeeper, nil)
+	if err := fmodule.InvokeSetHooks(&k, hm); err != nil {
+		return "", err
+	}
+	_, res := applyWith(w, k, w.Base(), Op{Kind: "create_fixed", Signer: "auc1", StartPrice: "2", Sell: "10acoin", PayDenom: "bcoin", StartK: 1, EndK: 2})
+	if !res.OK() {
+		return "", res.Err
+	}
+	return callsStr(calls), nil
+}
